@@ -25,6 +25,9 @@ def main():
         node("/a/b", "c"), node("/a", "/bc"), node("/a", "b/c"), node("/ab", "/c"), node("/a", "b"),
         node("/a", "bimmutable"), node("/_", "x"), node("/t", "s"), node("/t", "o"), node("/t", "é\"@[]"),
         node("/a/b", "/c"), node("/a", "/b/c"), node("/text:x", "immutable"),
+        # blank nodes whose ids are different SPELLINGS of one UUID (different strings, hence different nodes)
+        node("/_", "4a56bf17-5b52-4d5c-9d3f-0a1b2c3d4e5f"), node("/_", "4A56BF17-5B52-4D5C-9D3F-0A1B2C3D4E5F"),
+        node("/_", "urn:uuid:4a56bf17-5b52-4d5c-9d3f-0a1b2c3d4e5f"), node("/_", "{4a56bf17-5b52-4d5c-9d3f-0a1b2c3d4e5f}"),
     ]
     v16 = varint(unixnano(T1, 5))
     v16 = bytes(v16 + [0] * (16 - len(v16)))
@@ -37,6 +40,8 @@ def main():
         # (UnixNano -51 is the single byte 'e': "foo"+"immutable" = "fooimmutabl"+'e'), or as decimal text
         # ("k"+"123" = "k1"+"23")
         imm("foo"), tmp("fooimmutabl", -1, 999999949), tmp("k", 0, 123), tmp("k1", 0, 23),
+        # one instant written in two zones so that it falls into two calendar YEARS, at the edges of the UnixNano range
+        tmp("y", -9214561800), tmp("y", -9214561800, 0, 3600), tmp("y", 9214644600), tmp("y", 9214644600, 0, 3600),
     ]
     lits = [
         lit("bool", True), lit("bool", False), lit("text", b"true"), lit("text", b"false"), lit("blob", b"true"),
@@ -72,6 +77,8 @@ def main():
         triple(s, p, P[1]), triple(s, p, P[2]),                                 # predicate-valued objects, same instant
         triple(s, P[19], o), triple(s, P[20], o), triple(s, P[21], o), triple(s, P[22], o),   # the other-encoding near misses
         triple(s, p, lits[15]), triple(s, p, lits[38]),
+        triple(nodes[13], p, o), triple(nodes[14], p, o), triple(s, p, nodes[15]), triple(s, p, nodes[16]),   # blank node spellings
+        triple(s, P[23], o), triple(s, P[24], o), triple(s, P[25], o), triple(s, P[26], o),                 # year-edge anchors
     ]
     allv = values + objs + triples
     # every component of a triple must itself be listed (Identity.tla refers to them by index)
